@@ -13,18 +13,85 @@ class Unknown:
 UNK = Unknown()
 
 
+class Ref:
+    """an object known only by the access path it was obtained from: getattr(sim, 'ri_whfast') is Ref('sim.ri_whfast')"""
+    def __init__(self, path):
+        self.path = path
+
+    def __repr__(self):
+        return '&' + self.path
+
+    def __eq__(self, o):
+        return isinstance(o, Ref) and o.path == self.path
+
+    def __hash__(self):
+        return hash(self.path)
+
+
+def _key(e, p):
+    """environment key of a Name/Attribute, looking through names bound to a Ref"""
+    if isinstance(e, ast.Attribute):
+        base = _key(e.value, p) if isinstance(e.value, (ast.Name, ast.Attribute)) else ast.unparse(e.value)
+        return base + '.' + e.attr
+    if isinstance(e, ast.Name):
+        v = p.env.get(e.id)
+        return v.path if isinstance(v, Ref) else e.id
+    return ast.unparse(e)
+
+
 class Path:
     def __init__(self, env):
         self.env = dict(env)        # unparse(target) -> value
         self.events = []            # (lineno, 'call', text, {kw: value}, snapshot of env)
         self.done = None            # 'return' / 'raise'
+        self.forks = []             # (lineno, test text) of tests that could not be decided: both branches were followed
 
 
 def _ev(e, p):
     if isinstance(e, ast.Constant):
         return e.value
-    if isinstance(e, (ast.Name, ast.Attribute)):
-        return p.env.get(ast.unparse(e), UNK)
+    if isinstance(e, ast.Name):
+        return p.env.get(e.id, UNK)
+    if isinstance(e, ast.Attribute):
+        return p.env.get(_key(e, p), UNK)
+    if isinstance(e, ast.Dict) and all(isinstance(k, ast.Constant) for k in e.keys):
+        vs = {k.value: _ev(v, p) for k, v in zip(e.keys, e.values)}
+        return UNK if any(v is UNK for v in vs.values()) else vs
+    if isinstance(e, ast.Subscript):
+        b, i = _ev(e.value, p), _ev(e.slice, p)
+        if isinstance(b, (dict, tuple)) and i is not UNK:
+            try:
+                return b[i]
+            except (KeyError, IndexError, TypeError):
+                return UNK
+        return UNK
+    if isinstance(e, ast.Call) and isinstance(e.func, ast.Name) and e.func.id == 'isinstance' and len(e.args) == 2:
+        v = _ev(e.args[0], p)
+        tn = ast.unparse(e.args[1])
+        if v is not UNK and not isinstance(v, Ref):
+            if tn in ('int', 'int_types'):
+                return isinstance(v, int) and not isinstance(v, bool)
+            if tn in ('float',):
+                return isinstance(v, float)
+            if tn in ('str', 'basestring', 'string_types'):
+                return isinstance(v, str)
+        return UNK
+    if isinstance(e, ast.Call) and isinstance(e.func, ast.Attribute) and e.func.attr in ('lower', 'upper', 'strip') and not e.args:
+        v = _ev(e.func.value, p)
+        return getattr(v, e.func.attr)() if isinstance(v, str) else UNK
+    if isinstance(e, ast.Call) and isinstance(e.func, ast.Name) and e.func.id in ('list', 'tuple', 'set') and len(e.args) == 1:
+        v = _ev(e.args[0], p)
+        return tuple(v) if isinstance(v, (dict, tuple)) else UNK
+    if isinstance(e, ast.Call) and isinstance(e.func, ast.Attribute) and e.func.attr == 'keys' and not e.args:
+        v = _ev(e.func.value, p)
+        return tuple(v) if isinstance(v, dict) else UNK
+    if isinstance(e, ast.Call) and isinstance(e.func, ast.Name) and e.func.id == 'getattr' and len(e.args) == 2:
+        nm = _ev(e.args[1], p)
+        if isinstance(nm, str) and isinstance(e.args[0], (ast.Name, ast.Attribute)):
+            path = _key(e.args[0], p) + '.' + nm
+            v = p.env.get(path, UNK)
+            return v if v is not UNK else Ref(path)
+        return UNK
     if isinstance(e, (ast.List, ast.Tuple, ast.Set)):
         vs = [_ev(x, p) for x in e.elts]
         return UNK if any(v is UNK for v in vs) else tuple(vs)
@@ -40,6 +107,16 @@ def _ev(e, p):
         if any(v is not UNK and v for v in vs):
             return True
         return UNK if any(v is UNK for v in vs) else False
+    if isinstance(e, ast.Compare) and len(e.ops) > 1:
+        # a < b < c  ==  a < b and b < c
+        parts = []
+        left = e.left
+        for op, right in zip(e.ops, e.comparators):
+            parts.append(_ev(ast.Compare(left=left, ops=[op], comparators=[right]), p))
+            left = right
+        if any(v is not UNK and not v for v in parts):
+            return False
+        return UNK if any(v is UNK for v in parts) else True
     if isinstance(e, ast.Compare) and len(e.ops) == 1:
         a, b = _ev(e.left, p), _ev(e.comparators[0], p)
         if a is UNK or b is UNK:
@@ -106,6 +183,7 @@ def _exec(stmts, p):
         for b in branches:
             q = Path(p.env)
             q.events = list(p.events)
+            q.forks = list(p.forks) + ([(st.lineno, ast.unparse(st.test))] if t is UNK else [])
             for r in _exec(list(b), q):
                 if r.done:
                     yield r
@@ -118,14 +196,18 @@ def _exec(stmts, p):
         v = _ev(st.value, p)
         for t in st.targets:
             if isinstance(t, (ast.Name, ast.Attribute)):
-                p.env[ast.unparse(t)] = v
+                p.env[_key(t, p) if isinstance(t, ast.Attribute) else t.id] = v
                 # a rebound name invalidates what was known about its attributes
                 if isinstance(t, ast.Name):
                     for k in [k for k in p.env if k.startswith(t.id + '.')]:
                         del p.env[k]
             elif isinstance(t, ast.Tuple):
-                for x in t.elts:
-                    p.env[ast.unparse(x)] = UNK
+                if isinstance(v, tuple) and len(v) == len(t.elts):
+                    for x, xv in zip(t.elts, v):
+                        p.env[_key(x, p) if isinstance(x, ast.Attribute) else ast.unparse(x)] = xv
+                else:
+                    for x in t.elts:
+                        p.env[ast.unparse(x)] = UNK
     elif isinstance(st, ast.AugAssign):
         cur, v = p.env.get(ast.unparse(st.target), UNK), _ev(st.value, p)
         if cur is not UNK and v is not UNK and isinstance(st.op, (ast.Add, ast.Sub)) and all(isinstance(x, (int, float)) for x in (cur, v)):
